@@ -265,3 +265,34 @@ Definition order_ok (fixed : bool) (d : dunder) : bool :=
   | MNegAdd => true                                    (* (-self) + other = other - self *)
   | _ => commutative m || Bool.eqb self_first (negb (reflected d))
   end.
+
+(* ------------------------------------------------------------------ comparison dispatch through the RIGHT operand
+   _td.py __lt__/__le__/__gt__/__ge__/__eq__/__ne__:   if is_tensorclass(other): return other <op'> self
+   _lazy.py _dispatch_comparison(other, comparison_str, inverse_str): getattr(other, inverse_str)(self)
+   [tc_dispatch c] / [lazy_dispatch c] is the operator op' the code applies to (other, self) for the spelling c. *)
+Inductive cmp := CLt | CLe | CGt | CGe | CEq | CNe.
+
+Definition tc_dispatch (c : cmp) : cmp :=
+  match c with
+  | CNe => CNe        (* other != self *)
+  | CEq => CEq        (* other == self *)
+  | CGe => CLe        (* __ge__: other <= self *)
+  | CGt => CLt        (* __gt__: other <  self *)
+  | CLe => CGe        (* __le__: other >= self *)
+  | CLt => CGt        (* __lt__: other >  self *)
+  end.
+Definition lazy_dispatch (c : cmp) : cmp :=      (* inverse_str of LazyStackedTensorDict.__xx__ *)
+  match c with
+  | CEq => CEq | CNe => CNe | CGe => CLe | CGt => CLt | CLe => CGe | CLt => CGt
+  end.
+
+(* what torch computes elementwise, on integers *)
+Definition cmp_sem (c : cmp) (a b : Z) : bool :=
+  match c with
+  | CLt => Z.ltb a b | CLe => Z.leb a b | CGt => Z.ltb b a | CGe => Z.leb b a | CEq => Z.eqb a b | CNe => negb (Z.eqb a b)
+  end.
+(* the converse relation (swap the operands) — not the negation *)
+Definition converse (c : cmp) : cmp :=
+  match c with CLt => CGt | CLe => CGe | CGt => CLt | CGe => CLe | CEq => CEq | CNe => CNe end.
+Definition negation (c : cmp) : cmp :=
+  match c with CLt => CGe | CLe => CGt | CGt => CLe | CGe => CLt | CEq => CNe | CNe => CEq end.
